@@ -210,7 +210,7 @@ def attr_str(f):
         else:
             head, rng = "bits", "%s..=%s" % (num(lo), num(hi))
     else:
-        head = "bits"
+        head = "bit" if syn % 19 == 4 else "bits"  # (a range list is accepted under either attribute name)
         items = []
         for n, (lo, hi) in enumerate(rs):
             if lo == hi and (syn + n) % 2 == 0:
@@ -232,6 +232,10 @@ def attr_str(f):
         v = {"r": rng, "a": acc or None, "s": stride}[k]
         if v:
             parts.append(v)
+    if syn % 17 == 9 and len(parts) >= 2:
+        # the arguments of one field may be spread over several attributes; they accumulate
+        cut = 1 + (syn // 17) % (len(parts) - 1)
+        return "#[%s(%s)] #[%s(%s)]" % (head, ", ".join(parts[:cut]), head, ", ".join(parts[cut:]))
     if syn % 13 == 7 and len(parts) >= 2:
         body = parts[0] + ",, " + ", ".join(parts[1:])  # an empty top-level argument is accepted and means nothing
     else:
@@ -311,6 +315,9 @@ def render_struct(s):
         lines.append("#[doc = \"documentation below the attribute, mentioning Debug and derive(Debug)\"]")
     for a in s.get("attrs", []):
         lines.append(a)
+    if not s["fields"] and s.get("unit") in (";", "();"):
+        lines.append("%sstruct %s%s" % (s.get("vis", "pub "), s["name"], s["unit"]))  # `struct X;` / `struct X();`
+        return lines
     lines.append("%sstruct %s {" % (s.get("vis", "pub "), s["name"]))
     for f in s["fields"]:
         lines.extend(field_decl(f, s["name"]))
@@ -1869,6 +1876,42 @@ def fam_misc(tier, seed):
     out.append(e)
     out.append(struct(mod, "UsesVarNames", 16, [field("a", [(0, 2)], T_enum("VarNamesF", 3, False)), field("b", [(4, 5)], T_enum("VarNamesT", 2, True)), field("c", [(8, 11)], T_enum("VarNamesO", 4, False))],
                       debug=True, family="MISC"))
+    # field-less structs written as unit / tuple structs
+    for i, (u, base, dflt) in enumerate(((";", 8, None), ("();", 16, {"form": "=", "value": 0xBEEF}), (";", 24, {"form": ":", "value": 0x123456}), ("();", 128, None))):
+        out.append(struct(mod, "Unit%d" % i, base, [], default=dflt, family="MISC", extra={"unit": u}))
+    # write-only / unspecified-access fields named like generated methods and constants (no getter, so no clash)
+    fs = [field("builder", [(0, 3)], T_uint(4), access="w"), field("build", [(4, 7)], T_uint(4), access="w"), field("raw_value", [(8, 11)], T_uint(4), access="w"),
+          field("new", [(12, 12)], T_bool(), access="w"), field("default", [(13, 15)], T_uint(3), access=""), field("plain", [(16, 23)], T_uint(8)),
+          field("new_with_raw_value", [(24, 27)], T_uint(4), access="w"), field("zero", [(28, 31)], T_uint(4), access="w")]
+    for dflt in (None, {"form": "=", "value": 0xA5A5_0000}):
+        out.append(struct(mod, "MethodNames%s" % ("d" if dflt else "n"), 32, json.loads(json.dumps(fs)), default=dflt, family="MISC"))
+    out.append(struct(mod, "MethodNamesFull", 8, [field("builder", [(0, 3)], T_uint(4), access="w"), field("build", [(4, 7)], T_uint(4), access="w")], family="MISC"))
+    # the whole base through a one-entry list (read-only and read-write), every native storage
+    for base in (8, 16, 32, 64, 128):
+        out.append(struct(mod, "ListFullR%d" % base, base, [field("all", [(0, base - 1)], T_uint(base), access="r", force_list=True)], family="MISC"))
+        out.append(struct(mod, "ListFullS%d" % base, base, [field("all", [(0, base - 1)], T_int(base), access="r", force_list=True), field("low", [(0, 0)], T_bool())], default={"form": "=", "value": 1 << (base - 1)}, family="MISC"))
+    # full bit reversals (descending single-bit lists) that do not start at bit 0, scalar and array, native and arbitrary element types
+    for i, (base, off, w, arr) in enumerate(((32, 8, 8, None), (32, 16, 16, None), (64, 32, 32, None), (64, 8, 8, 3), (128, 64, 64, None), (24, 12, 12, None), (32, 4, 8, None), (128, 32, 16, 4))):
+        rs = [(off + w - 1 - k, off + w - 1 - k) for k in range(w)]
+        f = field("rev", rs, T_uint(w), array=({"k": arr, "stride": w + 4} if arr else None))
+        fs = [f, field("lowbits", [(0, min(off, 8) - 1)], T_uint(min(off, 8)))]
+        s_ = struct(mod, "Rev%d" % i, base, fs, default=({"form": "=", "value": (1 << base) - 1} if i % 2 else None), family="MISC")
+        add_const_witnesses(s_, seed, maxn=2)
+        out.append(s_)
+    # a user item called `core` next to the declarations (generated code must name ::core)
+    cm = "misc_corectx"
+    out.append({"kind": "raw", "mod": cm, "name": "core", "path": "%s::core" % cm, "defines": ["core"],
+                "lines": ["/// a user module that happens to be called `core` (per-core registers of an SoC)", "pub mod core {", "    /// how many", "    pub const COUNT: usize = 2;", "}"]})
+    ce = mk_enum(cm, "CoreSel", 2, [0, 1, 2], family="MISC")
+    cn = struct(cm, "CoreInner", 4, [field("x", [(0, 3)], T_uint(4))], debug=True, family="MISC")
+    out += [ce, cn]
+    fs = [field("sel", [(0, 1)], T_enum("CoreSel", 2, False)), field("run", [(2, 2)], T_bool()), field("inner", [(4, 7)], T_nested("CoreInner", 4)), field("cnt", [(8, 15)], T_int(8)),
+          field("lanes", [(16, 17)], T_uint(2), array={"k": 4, "stride": None}, access="rw"), field("nc", [(24, 25), (28, 29)], T_uint(4))]
+    for dflt in (None, {"form": "=", "value": 0x1234_5678}):
+        s_ = struct(cm, "CoreCtx%s" % ("d" if dflt else "n"), 32, json.loads(json.dumps(fs)), default=dflt, family="MISC")
+        add_const_witnesses(s_, seed, maxn=2)
+        out.append(s_)
+    out.append(struct(cm, "CoreCtxDbg", 16, json.loads(json.dumps(fs[:4])), debug=True, default={"form": "=", "value": 7}, family="MISC"))
     # zero fields
     out.append(struct(mod, "Empty8n", 8, [], family="MISC"))
     out.append(struct(mod, "Empty8d", 8, [], default={"form": "=", "value": 7}, family="MISC"))
